@@ -127,6 +127,11 @@ fn class_of(a: &SocketAddr) -> String {
     }
 }
 
+trait OrDefaultPair { fn unwrap_or_default_pair(self) -> (String, SocketAddr); }
+impl OrDefaultPair for Option<(String, SocketAddr)> {
+    fn unwrap_or_default_pair(self) -> (String, SocketAddr) { self.unwrap_or((String::new(), SocketAddr::new(IpAddr::V4(Ipv4Addr::UNSPECIFIED), 0))) }
+}
+
 fn direct_checks(ctx: &mut Ctx, sc: &Value) {
     let addrs = direct_addresses(sc);
     let mut r = Rng::new(sc["direct_salt"].as_u64().unwrap_or(0) ^ 0x19);
@@ -170,6 +175,66 @@ fn direct_checks(ctx: &mut Ctx, sc: &Value) {
         match postcard::to_stdvec(&na).ok().and_then(|b| postcard::from_bytes::<NetworkAddress>(&b).ok()) {
             Some(b) if b == na => {}
             other => ctx.violate("C19.direct.postcard_round_trip", cls.clone(), format!("{sa}: {:?}", other.map(|x| x.socket_addr()))),
+        }
+    }
+    // (5) bootstrap contacts: the word encoder of the bootstrap module, and address lists
+    //     written into a configuration (plain, library rendering, word form) read back
+    {
+        let enc = saorsa_core::bootstrap::WordEncoder::new();
+        let mut cfg = saorsa_core::Config::default();
+        cfg.network.bootstrap_nodes.clear();
+        let mut want: Vec<SocketAddr> = Vec::new();
+        for sa in &addrs {
+            let cls = class_of(sa);
+            match enc.encode_socket_addr(sa) {
+                Ok(w) => {
+                    ctx.probe("bootstrap_word_form_produced");
+                    match enc.decode_to_socket_addr(&w) {
+                        Ok(back) if back == *sa => {}
+                        Ok(back) => ctx.violate("C19.bootstrap.words_decode_to_other_address", cls.clone(), format!("WordEncoder: {sa} -> `{}` -> {back}", w.0)),
+                        Err(e) => ctx.violate("C19.bootstrap.words_do_not_decode", cls.clone(), format!("WordEncoder: {sa} -> `{}` -> error {e}", w.0)),
+                    }
+                    // the textual form handed on (dots or hyphens) is re-read through from_string
+                    for text in [w.0.clone(), w.0.replace('-', ".")] {
+                        if let Ok(again) = saorsa_core::bootstrap::FourWordAddress::from_string(&text) {
+                            if let Ok(back) = enc.decode_to_socket_addr(&again) {
+                                if back != *sa { ctx.violate("C19.bootstrap.words_decode_to_other_address", format!("{cls}:reparsed"), format!("WordEncoder: `{text}` (from {sa}) -> {back}")); }
+                            }
+                        }
+                    }
+                    match enc.encode_multiaddr_string(&sa.to_string()) {
+                        Ok(w2) if w2.0 == w.0 => {}
+                        Ok(w2) => ctx.violate("C19.bootstrap.string_and_socket_encodings_differ", cls.clone(), format!("{sa}: `{}` vs `{}`", w.0, w2.0)),
+                        Err(e) => ctx.violate("C19.bootstrap.string_and_socket_encodings_differ", cls.clone(), format!("{sa}: encode_multiaddr_string fails: {e}")),
+                    }
+                }
+                Err(_) => ctx.probe("bootstrap_no_word_form"),
+            }
+            let na = NetworkAddress::new(*sa);
+            let form = r.below(3);
+            let text = match (form, na.four_words()) { (1, _) => na.to_string(), (2, Some(w)) => w.to_string(), _ => sa.to_string() };
+            cfg.network.bootstrap_nodes.push(text);
+            want.push(*sa);
+        }
+        match cfg.bootstrap_addrs() {
+            Ok(got) => {
+                for (i, (g, w)) in got.iter().zip(want.iter()).enumerate() {
+                    if g.socket_addr() != *w { ctx.violate("C19.bootstrap.config_entry_read_as_other_address", class_of(w), format!("bootstrap_nodes[{i}] = `{}` read back as {} (written for {w})", cfg.network.bootstrap_nodes[i], g.socket_addr())); }
+                }
+                if got.len() != want.len() { ctx.violate("C19.bootstrap.config_entry_rejected", "count", format!("{} of {} entries read back", got.len(), want.len())); }
+                ctx.probe("bootstrap_config_list_read_back");
+            }
+            Err(e) => {
+                let first_bad = cfg.network.bootstrap_nodes.iter().zip(want.iter()).find(|(t, _)| t.parse::<NetworkAddress>().is_err());
+                let (t, w) = first_bad.map(|(t, w)| (t.clone(), *w)).unwrap_or_default_pair();
+                ctx.violate("C19.bootstrap.config_entry_rejected", class_of(&w).split(':').next().unwrap_or("").to_string(), format!("Config::bootstrap_addrs rejects `{t}`, a form the library produced for {w}: {e}"));
+            }
+        }
+        // serde of a contact entry
+        let ce = saorsa_core::ContactEntry::new("peer".to_string(), addrs.clone());
+        match serde_json::to_string(&ce).ok().and_then(|j| serde_json::from_str::<saorsa_core::ContactEntry>(&j).ok()) {
+            Some(b) if b.addresses == addrs => {}
+            other => ctx.violate("C19.bootstrap.contact_entry_serde", "", format!("{:?}", other.map(|x| x.addresses))),
         }
     }
     // (4) malformed strings: an error, not a panic, not an address
@@ -270,6 +335,94 @@ fn execute(sc: &Value) -> RunReport {
                 ctx.violate("C19.flow.admission_gates_not_applied", "v6", format!("node {i} lists {v6_entries} IPv6 peers but its /64 admission counters account for {v6_counted}"));
             }
         }
+        // ---- (d) peer lookup by address: the address strings kept in the peer registry,
+        //      written by the connect/accept paths, are read back by get_peer_id_by_address
+        for (i, nd) in nodes.iter().enumerate() {
+            let connected = nd.transport.connected_peers().await;
+            for (j, other) in nodes.iter().enumerate() {
+                if i == j || !connected.contains(&other.tid) { continue; }
+                let Some(info) = nd.transport.peer_info(&other.tid).await else { continue };
+                // only the dialling side records the remote listen address; the accepting side records
+                // what the connection reported, which is the same socket in this network
+                ctx.probe("peer_lookup_by_address");
+                for text in [true_addr[j].to_string(), NetworkAddress::new(true_addr[j]).socket_addr().to_string()] {
+                    match nd.transport.get_peer_id_by_address(&text).await {
+                        Some(id) if id == other.tid => {}
+                        Some(id) => ctx.violate("C19.flow.address_lookup_names_other_peer", class_of(&true_addr[j]), format!("node {i}: get_peer_id_by_address(`{text}`) = {id}, but that is node {j}'s address ({})", other.tid)),
+                        None => {
+                            // acceptable only if the registry holds no address for that peer at all
+                            if info.addresses.iter().any(|a| NetworkAddress::from_str(a).map(|x| x.socket_addr() == true_addr[j]).unwrap_or(false)) {
+                                ctx.violate("C19.flow.address_lookup_misses_registered_peer", class_of(&true_addr[j]).split(':').next().unwrap_or("").to_string(), format!("node {i} keeps node {j} under {:?} but get_peer_id_by_address(`{text}`) finds nobody", info.addresses));
+                            }
+                        }
+                    }
+                }
+                for a in &info.addresses {
+                    match NetworkAddress::from_str(a) {
+                        Ok(x) if x.socket_addr() == true_addr[j] => {}
+                        Ok(x) => ctx.violate("C19.flow.registry_address_parses_to_other_address", class_of(&true_addr[j]), format!("node {i} keeps node {j} at `{a}` = {} (true {})", x.socket_addr(), true_addr[j])),
+                        Err(_) => ctx.violate("C19.flow.registry_address_does_not_parse", class_of(&true_addr[j]).split(':').next().unwrap_or("").to_string(), format!("node {i} keeps node {j} at `{a}`, which does not parse")),
+                    }
+                }
+            }
+        }
+        // ---- (e) bootstrap contacts through the cache file: what was added for a peer is what a
+        //      reopened manager hands back (one run in three; the cache itself is ant-quic's)
+        if sc["direct_salt"].as_u64().unwrap_or(0) % 3 == 0 {
+            let scratch = crate::simkit::Scratch::new("c19");
+            let mk = || saorsa_core::BootstrapConfig { cache_dir: scratch.path.join("cache"), max_peers: 1000, epsilon: 0.0, rate_limit: Default::default(), diversity: saorsa_core::security::IPDiversityConfig::permissive() };
+            let addrs = direct_addresses(sc);
+            let mut want: BTreeMap<String, Vec<SocketAddr>> = BTreeMap::new();
+            match saorsa_core::BootstrapManager::with_config(mk()).await {
+                Ok(b) => {
+                    for (k, chunk) in addrs.chunks(3).enumerate() {
+                        let id = format!("{:064x}", (k as u128 + 1) * 0x1_0001_0001_0001u128);
+                        b.add_contact_trusted(saorsa_core::ContactEntry::new(id.clone(), chunk.to_vec())).await;
+                        want.insert(id, chunk.to_vec());
+                    }
+                    for (id, w) in &want {
+                        if let Some(cp) = b.get_peer(id).await {
+                            let mut got = cp.addresses.clone(); got.sort();
+                            let mut w2 = w.clone(); w2.sort();
+                            if got != w2 { ctx.violate("C19.bootstrap.cache_returns_other_addresses", "same_process", format!("peer {id}: added {w2:?}, cache holds {got:?}")); }
+                            ctx.probe("bootstrap_cache_read_back");
+                        }
+                    }
+                    {
+                        let all: std::collections::BTreeSet<SocketAddr> = want.values().flatten().copied().collect();
+                        if let Ok(cs) = b.get_bootstrap_peers(64).await {
+                            for c in cs { for a in c.addresses { if !all.contains(&a) { ctx.violate("C19.bootstrap.contact_names_unknown_address", "same_process", format!("get_bootstrap_peers lists {a}, which nobody added")); } } }
+                        }
+                    }
+                    if let Err(e) = b.save().await { ctx.harness_error = Some(format!("bootstrap save: {e}")); }
+                    drop(b);
+                    match saorsa_core::BootstrapManager::with_config(mk()).await {
+                        Ok(b2) => {
+                            for (id, w) in &want {
+                                match b2.get_peer(id).await {
+                                    Some(cp) => {
+                                        let mut got = cp.addresses.clone(); got.sort();
+                                        let mut w2 = w.clone(); w2.sort();
+                                        if got != w2 { ctx.violate("C19.bootstrap.cache_returns_other_addresses", "", format!("peer {id}: added {w2:?}, reopened cache holds {got:?}")); }
+                                        ctx.probe("bootstrap_cache_reopened");
+                                    }
+                                    // whether ant-quic's cache persists a seed contact is ant-quic's business (the
+                                    // repository's own test says as much); only what comes back is judged
+                                    None => ctx.probe("bootstrap_cache_contact_not_persisted"),
+                                }
+                            }
+                            let all: std::collections::BTreeSet<SocketAddr> = want.values().flatten().copied().collect();
+                            if let Ok(cs) = b2.get_bootstrap_peers(64).await {
+                                for c in cs { for a in c.addresses { if !all.contains(&a) { ctx.violate("C19.bootstrap.contact_names_unknown_address", "", format!("get_bootstrap_peers lists {a}, which nobody added")); } } }
+                            }
+                        }
+                        Err(e) => ctx.harness_error = Some(format!("bootstrap reopen: {e}")),
+                    }
+                }
+                Err(e) => ctx.harness_error = Some(format!("bootstrap manager: {e}")),
+            }
+            drop(scratch);
+        }
         if crossed > 0 { ctx.probe("address_strings_in_replies"); }
         if dial_after_reply > 0 { ctx.probe("dials_observed"); }
         if crossed > 0 && dial_after_reply > 0 { ctx.nontrivial = true; }
@@ -277,6 +430,6 @@ fn execute(sc: &Value) -> RunReport {
         net.shutdown();
     });
     drop(rt);
-    for k in ["address_strings_in_replies", "dials_observed", "direct_boundary_address", "direct_four_word_form_produced", "direct_no_four_word_form", "direct_malformed_string"] { ctx.probes.entry(k.to_string()).or_insert(0); }
+    for k in ["address_strings_in_replies", "dials_observed", "peer_lookup_by_address", "bootstrap_word_form_produced", "bootstrap_config_list_read_back", "direct_boundary_address", "direct_four_word_form_produced", "direct_no_four_word_form", "direct_malformed_string"] { ctx.probes.entry(k.to_string()).or_insert(0); }
     ctx.finish()
 }
